@@ -315,7 +315,7 @@ func (cfg *Config) paramExp(pe *syntax.ParamExp) (string, error) {
 			case "K", "k":
 				// TODO: implement, like @A but listing keys for assoc arrays.
 			default:
-				panic(fmt.Sprintf("unexpected @%s param expansion", arg))
+				return "", fmt.Errorf("unsupported @%s param expansion", arg)
 			}
 		}
 	}
